@@ -224,6 +224,16 @@ fn define_natives(it: &It) -> Result<(), SchemeError> {
             },
         )),
     );
+    // (%verif-sanity-7f3a x) returns x: the probe evaluated after robustness inputs.  Its name is not
+    // producible by the input generators, so no input can rebind it (tick! can be redefined by a mutated program).
+    it.env.define(
+        "%verif-sanity-7f3a".to_string(),
+        Value::Procedure(Procedure::new_builtin_impure(
+            "%verif-sanity-7f3a".to_string(),
+            param_fixed!["x"],
+            |args: ArgVec<f32>, _env: Rc<Environment<f32>>| Ok(args.into_iter().next().unwrap()),
+        )),
+    );
     // (probe! site iter) logs the native stack address and the live heap; returns iter
     it.env.define(
         "probe!".to_string(),
